@@ -33,6 +33,10 @@ def encode_array(obj):
             "type_code": obj.type_code,
         }
 
+    if not isinstance(obj, np.ndarray):
+        # the image reader stores per-line metadata as plain lists
+        obj = np.asarray(obj)
+
     def default_encode(obj):
         return obj.tolist(), {}
 
